@@ -52,3 +52,34 @@ package crypki
 //@       ret(postUserSSHCertificate, n0 + j, 2) != nil)
 //@     invariant rangeindex >= 0 ==> err == ret(postUserSSHCertificate, n0 + rangeindex, 2)
 //@     invariant len(s.endpoints) >= 1
+
+//@ # ---------------------------------------------------------------- C18 / C17: construction
+//@ func (*SignerConfig).populate(s)
+//@   requires s != nil
+//@   modifies s.Retries, s.PerTryTimeout
+//@   ensures true
+
+//@ func NewSigner(conf)
+//@   let t0 = old(calls(tlsutils.TLSClientConfiguration))
+//@   let n0 = old(calls(credentials.NewTLS))
+//@   let w0 = old(calls(grpc.WithTransportCredentials))
+//@   ensures err != nil ==> result0 == nil
+//@   ensures [tls-config-from-the-signer-config] err == nil ==> (calls(tlsutils.TLSClientConfiguration) == t0 + 1 &&
+//@     ret(tlsutils.TLSClientConfiguration, t0, 1) == nil &&
+//@     arg(tlsutils.TLSClientConfiguration, t0, 0) == conf.TLSClientCertFile &&
+//@     arg(tlsutils.TLSClientConfiguration, t0, 1) == conf.TLSClientKeyFile &&
+//@     arg(tlsutils.TLSClientConfiguration, t0, 2) == conf.TLSCACertFiles)
+//@   ensures [tls-credentials-wired-into-every-dial] err == nil ==> (result0 != nil && fresh(result0) &&
+//@     calls(credentials.NewTLS) == n0 + 1 && arg(credentials.NewTLS, n0, 0) == ret(tlsutils.TLSClientConfiguration, t0, 0) &&
+//@     calls(grpc.WithTransportCredentials) == w0 + 1 && arg(grpc.WithTransportCredentials, w0, 0) == ret(credentials.NewTLS, n0, 0) &&
+//@     len(result0.dialOptions) == 3 && result0.dialOptions[0] == ret(grpc.WithTransportCredentials, w0, 0))
+//@   ensures [endpoint-list] err == nil ==> (len(result0.endpoints) == len(conf.CrypkiEndpoints) &&
+//@     forall(i, 0 <= i && i < len(conf.CrypkiEndpoints), result0.endpoints[i] == conf.CrypkiEndpoints[i] + ":" + itoa(conf.CrypkiPort)))
+//@   loop 1:
+//@     invariant len(endpoints) == len(conf.CrypkiEndpoints) && fresh(arr(endpoints)) && off(endpoints) == 0
+//@     invariant forall(i, 0 <= i && i <= rangeindex, endpoints[i] == conf.CrypkiEndpoints[i] + ":" + itoa(conf.CrypkiPort))
+//@     invariant calls(tlsutils.TLSClientConfiguration) == t0 + 1 && ret(tlsutils.TLSClientConfiguration, t0, 1) == nil &&
+//@       arg(tlsutils.TLSClientConfiguration, t0, 0) == conf.TLSClientCertFile && arg(tlsutils.TLSClientConfiguration, t0, 1) == conf.TLSClientKeyFile &&
+//@       arg(tlsutils.TLSClientConfiguration, t0, 2) == conf.TLSCACertFiles && tlsCfg == ret(tlsutils.TLSClientConfiguration, t0, 0)
+//@     invariant calls(credentials.NewTLS) == n0 + 1 && arg(credentials.NewTLS, n0, 0) == tlsCfg && clientCreds == ret(credentials.NewTLS, n0, 0) &&
+//@       calls(grpc.WithTransportCredentials) == w0
